@@ -3,6 +3,7 @@
 package main
 
 import (
+	"time"
 	"bufio"
 	"encoding/hex"
 	"encoding/json"
@@ -88,6 +89,7 @@ func main() {
 	tier := fs.String("tier", "quick", "tier")
 	out := fs.String("out", ".", "output directory")
 	repo := fs.String("repo", "/repo", "repository root (extractors)")
+	caseTimeout := fs.Int("case-timeout", 90, "seconds one case may take before the run is abandoned (the code under test does not return)")
 	fs.Parse(os.Args[2:])
 	if prop == "extract" {
 		names := []string{}
@@ -115,8 +117,31 @@ func main() {
 	ow, iw, xw := bufio.NewWriter(opsF), bufio.NewWriter(implF), bufio.NewWriter(idxF)
 	tags := map[string]int{}
 	lines := 0
+	finish := func() {
+		ow.Flush()
+		iw.Flush()
+		xw.Flush()
+		meta := map[string]any{"property": prop, "seed": *seed, "cases": *n, "from": *from, "lines": lines, "tags": tags}
+		b, _ := json.MarshalIndent(meta, "", " ")
+		os.WriteFile(filepath.Join(*out, "meta.json"), b, 0o644)
+	}
 	for k := *from; k < *from+*n; k++ {
-		c := runCase(r, *seed, *tier, k)
+		// watchdog: a case that does not return (e.g. the code under test spins) ends the shard with one TIMEOUT line
+		ch := make(chan Case, 1)
+		go func(k int) { ch <- runCase(r, *seed, *tier, k) }(k)
+		var c Case
+		select {
+		case c = <-ch:
+		case <-time.After(time.Duration(*caseTimeout) * time.Second):
+			fmt.Fprintf(ow, "HARNESS-TIMEOUT %s:%d\n", prop, k)
+			fmt.Fprintln(iw, "timeout")
+			fmt.Fprintln(xw, k)
+			lines++
+			tags["TIMEOUT"]++
+			finish()
+			fmt.Fprintf(os.Stderr, "case %s:%d did not return within %ds\n", prop, k, *caseTimeout)
+			os.Exit(4)
+		}
 		if len(c.Ops) != len(c.Impl) {
 			fmt.Fprintf(os.Stderr, "case %d: %d ops vs %d outputs\n", k, len(c.Ops), len(c.Impl))
 			os.Exit(3)
@@ -135,10 +160,5 @@ func main() {
 			tags[t]++
 		}
 	}
-	ow.Flush()
-	iw.Flush()
-	xw.Flush()
-	meta := map[string]any{"property": prop, "seed": *seed, "cases": *n, "from": *from, "lines": lines, "tags": tags}
-	b, _ := json.MarshalIndent(meta, "", " ")
-	os.WriteFile(filepath.Join(*out, "meta.json"), b, 0o644)
+	finish()
 }
